@@ -43,6 +43,7 @@ pub fn dispatch(req: &Value) -> Value {
         "relations" => op_relations(req),
         "total" => op_total(req),
         "ext" => op_ext(req),
+        "rel_edit" => op_rel_edit(req),
         "rel_wrap" => op_rel_wrap(req),
         "lossy_rel" => op_lossy_rel(req),
         "deb822_edit" => op_deb822_edit(req),
@@ -498,4 +499,60 @@ fn op_rel_wrap(req: &Value) -> Value {
     let t2 = guarded(|| json!(Relations::parse_relaxed(&t1, true).0.wrap_and_sort().to_string()));
     json!({"text": t1, "reparse_errors": e2.len(), "strict_ok": strict_ok, "structure": rels_struct(&re), "live_structure": rels_struct(&out),
            "sorted_entries": sorted_entries, "sorted_alts": sorted_alts, "text2": t2})
+}
+
+fn mk_relation(v: &Value) -> debian_control::lossless::relations::Relation {
+    use debian_control::lossless::relations::Relation;
+    use debian_control::relations::VersionConstraint;
+    let vc = |x: &str| match x { "<<" => VersionConstraint::LessThan, "<=" => VersionConstraint::LessThanEqual, "=" => VersionConstraint::Equal, ">=" => VersionConstraint::GreaterThanEqual, _ => VersionConstraint::GreaterThan };
+    let name = js(&v["name"]);
+    let ver = v["version"].as_array().map(|a| (vc(&js(&a[0])), js(&a[1]).parse::<debversion::Version>().unwrap()));
+    match v["how"].as_str().unwrap_or("parse") {
+        "new" => Relation::new(&name, ver),
+        "builder" => { let mut b = Relation::build(&name); if let Some((c, x)) = ver { b = b.version_constraint(c, x); } b.build() }
+        _ => { let t = match &ver { Some((c, x)) => format!("{} ({} {})", name, c, x), None => name.clone() }; t.parse().unwrap() }
+    }
+}
+
+/// C11: apply a history of edits to a relationship field; after every step report the root's text and what it re-reads to
+fn op_rel_edit(req: &Value) -> Value {
+    use debian_control::lossless::relations::{Entry, Relations};
+    use debian_control::relations::{BuildProfile, VersionConstraint};
+    let text = s(req, "s");
+    let (mut root, errs) = Relations::parse_relaxed(&text, true);
+    if !errs.is_empty() { return json!({"input_errors": errs.len()}); }
+    let snap = |root: &Relations| -> Value {
+        let t = root.to_string();
+        let (re, e2) = Relations::parse_relaxed(&t, true);
+        json!({"text": t, "reparse_errors": e2.len(), "structure": rels_struct(&re), "live": rels_struct(root)})
+    };
+    let mut states = vec![snap(&root)];
+    for op in req["ops"].as_array().cloned().unwrap_or_default() {
+        let i = op["i"].as_u64().unwrap_or(0) as usize; let j = op["j"].as_u64().unwrap_or(0) as usize;
+        let r = guarded(|| {
+            match op["op"].as_str().unwrap_or("") {
+                "push" => root.push(Entry::from(mk_relation(&op["operand"]))),
+                "push2" => root.push(Entry::from(vec![mk_relation(&op["operand"]), mk_relation(&op["operand2"])])),
+                "insert" => root.insert(i, Entry::from(mk_relation(&op["operand"]))),
+                "replace" => root.replace(i, Entry::from(mk_relation(&op["operand"]))),
+                "remove_entry" => { root.remove_entry(i); }
+                "entry_push" => { let mut e = root.get_entry(i).unwrap(); e.push(mk_relation(&op["operand"])); }
+                "entry_replace" => { let mut e = root.get_entry(i).unwrap(); e.replace(j, mk_relation(&op["operand"])); }
+                "entry_remove_relation" => { let e = root.get_entry(i).unwrap(); e.remove_relation(j); }
+                "entry_remove" => { let mut e = root.get_entry(i).unwrap(); e.remove(); }
+                "set_version" => { let mut r = root.get_entry(i).unwrap().get_relation(j).unwrap(); r.set_version(Some((VersionConstraint::GreaterThanEqual, js(&op["value"]).parse().unwrap()))); }
+                "unset_version" => { let mut r = root.get_entry(i).unwrap().get_relation(j).unwrap(); r.set_version(None); }
+                "drop_constraint" => { let mut r = root.get_entry(i).unwrap().get_relation(j).unwrap(); r.drop_constraint(); }
+                "set_archqual" => { let mut r = root.get_entry(i).unwrap().get_relation(j).unwrap(); r.set_archqual(&js(&op["value"])); }
+                "set_architectures" => { let mut r = root.get_entry(i).unwrap().get_relation(j).unwrap(); r.set_architectures(vec![js(&op["value"])].iter().map(|x| x.as_str())); }
+                "add_profile" => { let mut r = root.get_entry(i).unwrap().get_relation(j).unwrap(); r.add_profile(&[BuildProfile::Enabled(js(&op["value"]))]); }
+                "relation_remove" => { let mut r = root.get_entry(i).unwrap().get_relation(j).unwrap(); r.remove(); }
+                _ => {}
+            }
+            Value::Null
+        });
+        if r.get("panic").is_some() { states.push(r); break; }
+        states.push(guarded(|| snap(&root)));
+    }
+    json!({"states": states})
 }
